@@ -82,7 +82,8 @@ EPSF = {"float64": 2.0 ** -52, "float32": 2.0 ** -23}
 
 def rnd(x: float, dtype: str) -> float:
     """value of a python float after conversion to dtype"""
-    return float(NP[dtype](x))
+    with np.errstate(all="ignore"):
+        return float(NP[dtype](x))
 
 
 def rel_nodec_elem(last: float, loss: float, d: float, dtype: str):
@@ -154,6 +155,7 @@ def make_fake_optimizer_class():
                 self.reject_count = rc
 
         def step(self, input=None, target=None, weight=None):
+            self.args = (input, target, weight)
             last, loss, rc = self.script[self.calls]
             self.calls += 1
             self.feed(last, loss, rc)
